@@ -462,6 +462,17 @@ def gen_shape_cases(rng):
         ("select a from t1 where not (a between %d and %d)" % (k + 1, k), False),
         ("select a from t1 where case when b > %d then a else b end > 1" % k, False),
         ("select a, case when a is null then 0 when a > 1 then a else -a end from t1", False),
+        # two bounds on one column with constants of DIFFERENT types (the range-fold / conflict rules compare the
+        # constants: INT vs DECIMAL vs BIGINT must be compared by value)
+        ("select a from t1 where a > 0.5 and a < 4", False),
+        ("select a from t1 where a > 2.5 and a > 1", False),
+        ("select a from t1 where a > 1 and a > 2.5", False),
+        ("select a from t1 where a < 3 and a < 1.5", False),
+        ("select a from t1 where a >= 0.5 and a >= %d" % k, False),
+        ("select a from t1 where a > -3000000000 and a > %d" % k, False),
+        ("select a from t1 where a < 3000000000 and a <= %d" % k2, False),
+        ("select a, b from t1 where b > 1.5 and b < 3000000000", False),
+        ("select a from t1 where not (a > 0.5 and a < 4)", False),
     ]
     return [{"setup": setup, "sql": q, "features": ["shape"], "ordered": o, "nkeys": 0} for q, o in qs] + \
         [{"setup": setup, "sql": q, "features": ["shape2"], "ordered": o, "nkeys": (2 if o and "a, b" in q else 1 if o else 0)} for q, o in qs2]
